@@ -132,7 +132,7 @@ def c14(tier):
         "n_runs": _scale(1280 if quick else 24000),
         "jit_modes": [False] if quick else [False, True],
         "params": params,
-        "watchdog": 240 if quick else 900,
+        "watchdog": 360 if quick else 900,
         "det_sample": 12 if quick else max(12, _scale(200)),
         "det_rounds": [(12345, 2)] if quick else [(12345, 1), (999, 16)],
         "wall_cap": 900 if quick else 3 * 3600,
